@@ -129,7 +129,55 @@ def verdict (v : Option (String × String)) : String :=
   | none => "J:ok | T:-"
   | some (c, t) => s!"J:{c} | T:{if t == "" then "-" else t}"
 
+def withCov (out cov : String) : String := out ++ " | C:" ++ cov
+
 def r0Proc (sfs rfs : String) : ProcRules := { sfs := sfs, rfs := rfs }
+
+/-! ### coverage flags (statistics of the generator only; never compared) -/
+
+def nMatching {α} (d : Doc) (name : String) (pats : List (String × α)) : Nat :=
+  (pats.filter (fun kv => match matchRes d kv.1 name with | .len _ => true | _ => false)).length
+
+def covApp (d : Doc) (app : String) : String :=
+  match d.apps.find? (fun a => a.elt.name == some app) with
+  | some _ => "look=exact nmatch=0"
+  | none =>
+    let n := nMatching d app (patternDict (·.elt.pattern) d.apps)
+    s!"look={if n == 0 then "none" else "pat"} nmatch={n}"
+
+def covProc (d : Doc) (app proc : String) : String :=
+  match getApplicationElement d app with
+  | .ok (some a) =>
+    match a.programs.find? (fun p => p.name == some proc) with
+    | some p => s!"look=exact nmatch=0 chain={(Supv.Spec.C18.chain d LOOP_CHECK p).length} ties=1"
+    | none =>
+      let n := nMatching d proc (patternDict (·.pattern) a.programs)
+      let ch := match getProgramIn d a proc with
+        | .ok (some e, _) => (Supv.Spec.C18.chain d LOOP_CHECK e).length
+        | _ => 0
+      s!"look={if n == 0 then "none" else "pat"} nmatch={n} chain={ch} ties={(Supv.Spec.C18.progCandidates d app proc).length}"
+  | .ok none => "look=noapp nmatch=0 chain=0 ties=1"
+  | .error _ => "look=error nmatch=0 chain=0 ties=1"
+
+def covGroup (g : Group) : String :=
+  s!"sign={if optNonEmpty g.atIds then "at" else if optNonEmpty g.hashIds then "hash" else "none"} size={g.procs.length}"
+
+def covOpts (cfg : Config) (dflt : List String) : String :=
+  let bad (k : String) (ok : String → Bool) : Nat := match lookupStr cfg k with | some v => if ok v then 0 else 1 | none => 0
+  let n := bad "multicast_ttl" (fun v => (toRanged 0 255 v).isSome) + bad "event_port" (fun v => (toRanged 1 65535 v).isSome)
+    + bad "synchro_timeout" (fun v => (toRanged 15 1200 v).isSome) + bad "inactivity_ticks" (fun v => (toRanged 2 720 v).isSome)
+    + bad "stats_histo" (fun v => (toRanged 10 1500 v).isSome) + bad "event_link" (fun v => (toEnumUpper linkNames v).isSome)
+    + bad "conciliation_strategy" (fun v => (toEnumUpper concNames v).isSome) + bad "starting_strategy" (fun v => (toEnumUpper startNames v).isSome)
+    + bad "supvisors_failure_strategy" (fun v => (toEnumUpper failNames v).isSome) + bad "auto_fence" (fun v => (svBoolean v).isSome)
+    + bad "stats_irix_mode" (fun v => (svBoolean v).isSome) + bad "synchro_options" (fun v => (toSynchroOptions v).isSome)
+    + bad "stats_enabled" (fun v => (toStatisticsType v).isSome) + bad "stats_collecting_period" (fun v => (toPeriod v).isSome)
+    + bad "stats_periods" (fun v => (toPeriods v).isSome) + bad "tail_limit" (fun v => (byteSize v).isSome)
+    + bad "tailf_limit" (fun v => (byteSize v).isSome) + bad "multicast_group" (fun v => (toMulticastGroup v).isSome)
+    + bad "multicast_interface" (fun v => (toIpAddress v).isSome)
+  let o := convertOptions dflt cfg
+  let cleaned := synchroCleanup o != o.synchroOptions
+  let forced := match checkOptions o with | .ok o' => o'.failureStrategy != o.failureStrategy | .error _ => false
+  s!"fallback={n} cleaned={b2s cleaned} forced={b2s forced} keys={cfg.length}"
 
 /-- the group members named by `proc:index` words, with their rules resolved by the MODEL -/
 def modelMembers (st : St) (app sfs rfs : String) (ws : List String) : List GProc :=
@@ -165,8 +213,8 @@ def runGroup (st : St) (fresh : Bool) (app sfs rfs : String) (ws implWs : List S
   let (before, after) := parseImplGroup implWs
   let j := verdict (Supv.Spec.C18.judgeGroup st.mapper before after)
   match g1.resolve st.mapper with
-  | .ok g2 => ({ st with group := g2 }, " ".intercalate (g2.procs.map showMember) ++ " | " ++ j)
-  | .error e => ({ st with group := g1 }, " ".intercalate (g1.procs.map showMember) ++ s!" err:{e} | " ++ j)
+  | .ok g2 => ({ st with group := g2 }, withCov (" ".intercalate (g2.procs.map showMember) ++ " | " ++ j) (covGroup g1))
+  | .error e => ({ st with group := g1 }, withCov (" ".intercalate (g1.procs.map showMember) ++ s!" err:{e} | " ++ j) (covGroup g1))
 
 def stepLine (st : St) (line : String) : St × String :=
   let parts := line.splitOn "|"
@@ -203,8 +251,8 @@ def stepLine (st : St) (line : String) : St × String :=
     let obs : Except Err AppRules := match implErr impl with | some e => .error e | none => .ok (parseApp impl)
     let j := verdict (Supv.Spec.C18.judgeApp st.doc st.mapper.instances app r0 obs)
     match loadApplicationRules st.doc st.mapper.instances app r0 with
-    | .ok r => (st, showApp r ++ " | " ++ j)
-    | .error e => (st, s!"err:{e} | " ++ j)
+    | .ok r => (st, withCov (showApp r ++ " | " ++ j) (covApp st.doc app))
+    | .error e => (st, withCov (s!"err:{e} | " ++ j) (covApp st.doc app))
   | ["qprog", app, proc, sfs, rfs] =>
     let app := unhex app
     let proc := unhex proc
@@ -212,8 +260,8 @@ def stepLine (st : St) (line : String) : St × String :=
     let obs : Except Err ProcRules := match implErr impl with | some e => .error e | none => .ok (parseProc impl)
     let j := verdict (Supv.Spec.C18.judgeProc st.doc app proc r0 obs)
     match loadProgramRules st.doc app proc r0 with
-    | .ok r => (st, showProc r ++ " | " ++ j)
-    | .error e => (st, s!"err:{e} | " ++ j)
+    | .ok r => (st, withCov (showProc r ++ " | " ++ j) (covProc st.doc app proc))
+    | .error e => (st, withCov (s!"err:{e} | " ++ j) (covProc st.doc app proc))
   | "group" :: app :: sfs :: rfs :: members => runGroup st true (unhex app) sfs rfs members impl
   | "groupadd" :: app :: sfs :: rfs :: members => runGroup st false (unhex app) sfs rfs members impl
   | ["optsreset"] => ({ st with dfltSync := syncDefault }, okLine)
@@ -223,8 +271,8 @@ def stepLine (st : St) (line : String) : St × String :=
     let j := verdict (Supv.Spec.C18.judgeOptions cfg obs)
     let (res, dflt') := buildOptions st.dfltSync cfg
     match res with
-    | .ok o => ({ st with dfltSync := dflt' }, showOptions o ++ " | " ++ j)
-    | .error e => ({ st with dfltSync := dflt' }, s!"err:{e} | " ++ j)
+    | .ok o => ({ st with dfltSync := dflt' }, withCov (showOptions o ++ " | " ++ j) (covOpts cfg st.dfltSync))
+    | .error e => ({ st with dfltSync := dflt' }, withCov (s!"err:{e} | " ++ j) (covOpts cfg st.dfltSync))
   | _ => (st, "bad-op | J:ok | T:-")
 
 def main : IO Unit := runLoop ({} : St) stepLine
